@@ -318,6 +318,11 @@ func LiteralInfoFromURI(uri string) (*LiteralInfo, error) {
 	relStartIdx := uriIndexes[8]
 	baseUrl := strings.TrimRight(uri[0:relStartIdx], "/")
 	relUrl := uri[relStartIdx:]
+	if baseUrl != "" && !strings.Contains(baseUrl, "://") {
+		// Only the scheme is left ("http:///Patient/1"): there is no service base
+		// URL that URIString() could format back into a REST URL.
+		return nil, fmt.Errorf("%w: service base URL is empty", ErrInvalidURI)
+	}
 
 	// The REST regexp could be used to identify all the parts of the relative URI,
 	// but easier just to split.
